@@ -26,6 +26,12 @@ theorem splitNetloc_errs [Sub VO Q] (o : Oracles) (s : Str) : Errs Q (splitNetlo
 macro_rules | `(tactic| errs_leaf) => `(tactic| with_reducible exact splitUrl_errs _ _)
 macro_rules | `(tactic| errs_leaf) => `(tactic| with_reducible exact splitNetloc_errs _ _)
 
+/-- the NFKC screen (`_check_netloc`): a ValueError or an oracle request; also reached from
+    `build(authority=…)` since fix c2c2803 -/
+theorem checkNetloc_errs [Sub VO Q] (o : Oracles) (s : Str) : Errs Q (checkNetloc o s) := by
+  unfold checkNetloc; errs
+macro_rules | `(tactic| errs_leaf) => `(tactic| with_reducible exact checkNetloc_errs _ _)
+
 theorem isDigitChar_errs [Sub VO Q] (o : Oracles) (c : Nat) : Errs Q (isDigitChar o c) := by
   unfold isDigitChar; errs
 
@@ -130,11 +136,11 @@ macro_rules | `(tactic| errs_leaf) => `(tactic| with_reducible exact getStrQuery
 
 /-! ### build and the modifiers -/
 
-theorem build_errs [Sub VO Q] [Sub TV Q] (e : Env) (a : BuildArgs) : Errs Q (build e a) := by
-  unfold build; errs
-
 theorem lowerAny_errs [Sub VO Q] (e : Env) (s : Str) : Errs Q (lowerAny e s) := by unfold lowerAny; errs
 macro_rules | `(tactic| errs_leaf) => `(tactic| with_reducible exact lowerAny_errs _ _)
+
+theorem build_errs [Sub VO Q] [Sub TV Q] (e : Env) (a : BuildArgs) : Errs Q (build e a) := by
+  unfold build; errs
 
 theorem withScheme_errs [Sub VO Q] (e : Env) (u : Url) (s : Str) : Errs Q (withScheme e u s) := by
   unfold withScheme; errs
